@@ -15,7 +15,7 @@ VERIF = os.path.dirname(os.path.abspath(__file__))
 # the repository (and a private copy of the harness pointing at it) so that several changes can be
 # tried in parallel without touching /repo; nothing registered in MANIFEST.json sets them.
 REPO = os.environ.get("VERIF_ALT_REPO", "/repo")
-SPEC = os.path.join(VERIF, "spec")
+SPEC = os.environ.get("VERIF_ALT_SPEC", os.path.join(VERIF, "spec"))
 HARNESS = os.environ.get("VERIF_ALT_HARNESS", os.path.join(VERIF, "harness"))
 OUT = os.environ.get("VERIF_ALT_OUT", VERIF)
 WORK = os.path.join(OUT, "work")
